@@ -148,6 +148,7 @@ type sessPlan struct {
 	bookmark   map[int]bool
 	nilobj     map[int]bool
 	unknown    map[int]bool
+	errobj     map[int]bool // an ERROR frame whose payload is an API object, not a Status
 	drop       map[int]bool
 	dup        map[int]bool
 }
@@ -562,6 +563,9 @@ func (a *fakeAPI) flushLocked() {
 			if s.plan.unknown[i] {
 				out = append(out, watch.Event{Type: watch.EventType("WEIRD"), Object: e.obj})
 			}
+			if s.plan.errobj[i] {
+				out = append(out, watch.Event{Type: watch.Error, Object: e.obj})
+			}
 			marker := e.obj.GetNamespace() == markerNS
 			if !marker && (s.plan.drop[i] || a.dropNext > 0) {
 				if !s.plan.drop[i] {
@@ -692,7 +696,9 @@ func (a *fakeAPI) injectFrames(kind int) int {
 		if s.closed || s.stopped() {
 			continue
 		}
-		switch kind % 3 {
+		switch kind % 4 {
+		case 3:
+			s.enqueue(watch.Event{Type: watch.Error, Object: &corev1.Pod{ObjectMeta: metav1.ObjectMeta{Namespace: "a", Name: "errpayload", ResourceVersion: strconv.Itoa(a.rv)}}})
 		case 0:
 			s.enqueue(watch.Event{Type: watch.Error, Object: &metav1.Status{Status: "Failure", Reason: metav1.StatusReasonGone, Message: "injected status frame", Code: 410}})
 		case 1:
